@@ -306,7 +306,7 @@ def plan(tier, seed):
                     continue        # six alternatives per position: length 3 costs 4 CPU-minutes; 'if' (1 then 1.0 through one action) is a length-2 text
                 obs.append(Ob(name=f'{gn}_{sk}_L{n}', factory='vt.props.c06:make_sem', spec={'grammar': gn, 'semantics': sk, 'n': n},
                               params=[(f'c{i}', 0, UNI) for i in range(n)], budget={0: 40, 1: 40, 2: 90, 3: 400, 4: 2400}[n], group=sk,
-                              require_tags=('ok',) if n == 2 and sk in ('tag', 'identity') and gn != 'closure_calls' else ()))
+                              require_tags=('ok',) if n == 2 and sk in ('tag', 'identity') and gn not in ('closure_calls', 'leftrec') else ()))
     return {
         'obligations': obs,
         'native': native_checks,
